@@ -647,10 +647,10 @@ theorem baryCoeffs_eq_field (w : Weights F) (z : F) :
 end field
 
 /-- nothing the translator emitted is left without a tie theorem (the protocol functions `commit`,
-`generateChallenges`, `CreateIPAProof`, `CheckIPAProof`, `CheckMultiProof`, `domainToFr` are tied in `Tie/Protocol.lean`) -/
+`generateChallenges`, `CreateIPAProof`, `CheckIPAProof`, `CheckMultiProof`, `domainToFr` are tied in `Tie/Protocol.lean`, `CreateMultiProof` in `Tie/ProtocolMp.lean`) -/
 theorem all_translated_tied : Gen.Loops.translated =
     ["BatchInvert", "CheckIPAProof", "CheckMultiProof", "ComputeBarycentricCoefficients", "CreateIPAProof",
-     "DivideOnDomain", "InnerProd", "NewPrecomputedWeights", "PowersOf", "absInt", "commit",
+     "CreateMultiProof", "DivideOnDomain", "InnerProd", "NewPrecomputedWeights", "PowersOf", "absInt", "commit",
      "computeBarycentricWeightForElement", "domainToFr", "foldPoints", "foldScalars", "generateChallenges",
      "getInvertedElement", "getRatioOfWeights", "splitPoints", "splitScalars"] := by decide
 
